@@ -21,11 +21,13 @@ Definition cal_sort (l : list Z) : list Z := fold_right cal_insert [] l.
 Definition cal_median (l : list Z) : option Q :=
   let s := cal_sort l in
   let n := length s in
+  let lo := nth (n / 2 - 1)%nat s 0 in
+  let hi := nth (n / 2)%nat s 0 in
   match n with
   | O => None
   | _ => if Nat.even n
-         then Some ((inject_Z (nth (n / 2 - 1) s 0) + inject_Z (nth (n / 2) s 0)) / 2)%Q
-         else Some (inject_Z (nth (n / 2) s 0))
+         then Some ((inject_Z lo + inject_Z hi) / 2)%Q
+         else Some (inject_Z hi)
   end.
 
 Definition cal_select {A} (keep : list bool) (l : list A) : list A :=
